@@ -170,7 +170,7 @@ ROUND8 = {
  "C05": " Audit round: C05.height-follows-parent - a block whose parent is known is accepted only with id == parent id + 1; C05.density-anchor now requires the density rule for every block of the new chain.",
  "C06": " Audit round: known finding C06.tx-hash-coverage|leaf|path (the merkle leaf does not cover routing paths).",
  "C08": " Audit round: C08.unrouted-types-no-work - block-made types (ATR, Fee, Issuance, SPV), whose paths are never verified, get no routing work.",
- "C11": " Audit round: C11.peer-assert - no assert!/assert_eq! in a handler-reachable body compares a field of a wire message.",
+ "C11": " Audit round: C11.ghost-chain-gate (add_ghost_block only behind the sender's verified key and lite-node mode); C11.pre-handshake now resolves temporaries holding a copy of the key field (it was blind to Copy fields); C11.peer-assert - no assert!/assert_eq! in a handler-reachable body compares a field of a wire message.",
  "C13": " Audit round: C13.fee-deducted - a rebroadcast fee booked into total_fees_atr flows into the rebroadcast transaction's outputs.",
  "C14": " Audit round: C14.bundle-no-assert (bundle_block answers 'cannot bundle' with None, never with an assertion) and C14.sweep-window (the pool sweep applies the retention-window test).",
  "C17": " Audit round: cross-lists C11.peer-assert for the handshake handlers.",
